@@ -7,7 +7,7 @@ from model import (ret_value_class, dstr, strip, fact_holds, mentions_field, men
 from rules import (guarded, calls_to, field_writes, who_may_write, who_may_call, full_range,
                    loops_over, every_iteration_passes, basename, origins, is_var, is_enum,
                    lastname, dominated_by, reject_if, must_pass, reached_only_via, deep_resolve,
-                   header_iff_empty, linear, block_env, justified)
+                   header_iff_empty, linear, block_env, justified, str_value)
 
 ENTRY_FIELDS = ['BuildLog::LogEntry::start_time', 'BuildLog::LogEntry::end_time',
                 'BuildLog::LogEntry::mtime', 'BuildLog::LogEntry::command_hash']
@@ -106,7 +106,7 @@ def run(ctx):
     fmt = None
     if outs:
         f0 = strip(outs[0]['args'][1])
-        fmt = f0.get('v') if isinstance(f0, dict) and f0.get('k') == 'str' else None
+        fmt = str_value(prog, we, f0)
         ctx.check('C08.O1', fmt is not None and fmt.endswith('\n') and fmt.count('\n') == 1, we.name,
                   'WriteEntry:format-newline', we.where(outs[0]), 'the record format ends in exactly one \\n: %r' % fmt)
     for e in rc.calls('BuildLog::WriteEntry'):
